@@ -1288,6 +1288,56 @@ func c06CheckProd(c c06ProdCase) engine.Result {
 	return res
 }
 
+// ---- scenario "foreign-packet-headers" -------------------------------------------------------------------
+
+type c06ForeignCase struct {
+	Byte3 int `json:"byte3"` // scrambling control, adaptation_field_control, continuity counter of the foreign packet
+}
+
+// packets of OTHER PIDs in front of and between the PMT packets, with every value of header byte 3 (all
+// scrambling-control / adaptation_field_control combinations, legal or reserved) x 5 values of the byte-1 flags
+// x 7 PIDs (1, 4, 0xF, 0x10, 0x1FFE, the null PID, the PMT PID with bit 12 flipped): what travels on another PID
+// is none of the reader's business
+func c06CheckForeign(c c06ForeignCase) engine.Result {
+	var res engine.Result
+	sec := c06ReuseSections[c.Byte3%len(c06ReuseSections)]
+	w := c06MakeWant(&sec)
+	payload := append(ref.Pointer(0), sec.Bytes()...)
+	const pid = 0x64
+	o := ref.CarryOpts{PID: pid, First: 20, Mid: 184, CC0: 1}
+	pkts, _ := ref.CarrySection(o, payload)
+	for _, flags := range [...]byte{0x00, 0x20, 0x40, 0x80, 0xE0} {
+		for _, fp := range [...]int{1, 4, 0xF, 0x10, 0x1FFE, 0x1FFF, pid ^ 0x1000} {
+			var f [188]byte
+			for i := range f {
+				f[i] = byte(0x20 + i%0x5F)
+			}
+			f[0], f[1], f[2], f[3] = 0x47, flags|byte(fp>>8), byte(fp), byte(c.Byte3)
+			var stream []byte
+			stream = append(stream, f[:]...)
+			for i := range pkts {
+				stream = append(stream, pkts[i][:]...)
+				stream = append(stream, f[:]...)
+			}
+			res.Nontrivial++
+			res.Evals++
+			engine.Guard(&res, "foreign-packet-headers|ReadPMT", func() {
+				pmt, err := psi.ReadPMT(bytes.NewReader(stream), pid)
+				if err != nil || pmt == nil {
+					res.Failf("foreign-packet-headers|ReadPMT|error", "packets of PID %#x with header % x in front of and between the %d PMT packets: %v", fp, f[:4], len(pkts), err)
+					return
+				}
+				c06Verify(&res, "foreign-packet-headers|ReadPMT|", pmt, w, false)
+			})
+			if len(res.Fail) > 6 {
+				return res
+			}
+		}
+	}
+	res.Outcome(c.Byte3 >> 4)
+	return res
+}
+
 // ---- scenario "pointer-length-grid" -----------------------------------------------------------------------
 
 type c06GridCase struct {
@@ -1534,6 +1584,16 @@ func init() {
 					}
 				},
 				Check: c06CheckProd, Batch: 1,
+			},
+			&engine.Enum[c06ForeignCase]{
+				Name: "foreign-packet-headers",
+				Rule: "packets of other PIDs (1, 4, 0xF, 0x10, 0x1FFE, the null PID, the PMT PID with bit 12 flipped) in front of and between the packets of a two-packet table, with EVERY value of header byte 3 (all scrambling-control and adaptation_field_control values, also the reserved ones) x byte-1 flags {none, priority, unit start, error indicator, all}: ReadPMT reports exactly the table",
+				Gen: func(r *engine.Run, emit func(c06ForeignCase)) {
+					for b := 0; b < 256; b++ {
+						emit(c06ForeignCase{b})
+					}
+				},
+				Check: c06CheckForeign, Batch: 4,
 			},
 			&engine.Enum[c06GridCase]{
 				Name: "pointer-length-grid",
